@@ -202,7 +202,8 @@ def _row_normalize(C):
         T = inv_weights.dot(C_csr)
         T = type(C)(T)  # recast T to the input type
     else:
-        C = np.array(C)
+        # (row sums of float32/float16 counts would carry that precision)
+        C = np.array(C, dtype=np.float64)
         weights = np.asarray(C.sum(axis=1)).flatten()
         inv_weights = np.zeros(n_states)
         inv_weights[weights > 0] = 1.0 / weights[weights > 0]
